@@ -70,6 +70,42 @@ def _worker(args):
     return out
 
 
+def _shrink_worker(args):
+    modname, items, shrink_budget = args
+    mod = importlib.import_module(modname)
+    prog = common.progress_path(f"{mod.PID}_shrink")
+    prog.write_text("null")
+    pool.install_inline()
+    if hasattr(mod, "setup_worker"):
+        mod.setup_worker()
+    drv = common.Driver()
+    cands = getattr(mod, "shrink_candidates", None)
+    out = []
+    for (verdict, *_), detail in items:
+        case = detail["case"]
+
+        def run_one(c):
+            prog.write_text(json.dumps(c, default=str))
+            return mod.evaluate(c, drv)
+
+        if cands is not None:
+            def still(c, verdict=verdict):
+                return run_one(c)["verdict"] == verdict
+            try:
+                case = common.greedy_shrink(case, cands, still, budget=shrink_budget)
+            except Exception:
+                pass
+        try:
+            r2 = run_one(case)
+            d2 = r2["detail"] if r2["verdict"] == verdict else detail
+        except Exception:
+            d2 = detail
+        out.append((verdict, d2))
+    drv.close()
+    prog.write_text("null")
+    return out
+
+
 def run_property(mod, tier: str, seed: int, shrink_budget=80, max_report=24) -> int:
     run = common.Run(mod.PID, tier, seed, rule=mod.RULE)
     run.assumptions = list(getattr(mod, "ASSUMPTIONS", []))
@@ -110,30 +146,21 @@ def run_property(mod, tier: str, seed: int, shrink_budget=80, max_report=24) -> 
         common.log("HARNESS-ERROR (check infrastructure failed on a case):\n" + json.dumps(harness_errors[0], indent=1, default=str)[:3000])
         run.extra["harness_errors"] = len(harness_errors)
     if first_bad:
-        pool.install_inline()
-        if hasattr(mod, "setup_worker"):
-            mod.setup_worker()
-        drv = common.Driver()
-        cands = getattr(mod, "shrink_candidates", None)
-        for (verdict, *_), detail in list(first_bad.items())[:max_report]:
-            case = detail["case"]
-            if cands is not None:
-                def still(c, verdict=verdict):
-                    return mod.evaluate(c, drv)["verdict"] == verdict
-                try:
-                    case = common.greedy_shrink(case, cands, still, budget=shrink_budget)
-                except Exception:
-                    pass
-            try:
-                r2 = mod.evaluate(case, drv)
-                d2 = r2["detail"] if r2["verdict"] == verdict else detail
-            except Exception:
-                d2 = detail
+        # shrinking re-runs the real code: do it in a child process too, so that a crash of the
+        # interpreter (segfault in compiled code) cannot take the check down
+        items = list(first_bad.items())[:max_report]
+        shr = common.run_sharded(_shrink_worker, [(mod.__name__, items, shrink_budget)], progress_tags=[f"{mod.PID}_shrink"])[0]
+        if isinstance(shr, dict) and shr.get("crashed"):
+            run.extra["shrink_stage_crashed"] = True
+            if shr.get("last_case") is not None:
+                run.violation(dict(case=shr["last_case"], expected="a result or a Python exception",
+                                   actual=f"process crashed (exit code {shr['exitcode']}) while evaluating this case"))
+            shr = [(k[0], v) for k, v in items]
+        for verdict, detail in shr:
             if verdict == "violation":
-                run.violation(d2)
+                run.violation(detail)
             else:
-                run.disagreement(d2)
-        drv.close()
+                run.disagreement(detail)
     run.extra["worker_processes"] = nshards
     rc = run.finish()
     if harness_errors and rc == 0:
